@@ -520,10 +520,14 @@ PROPS['C08'] = dict(
           'gRPC+separate-Pythia deployments' % n, env={'VERIF_SLICE': str(i)}, no_validate=True)
         for i, n in enumerate(_C08_KINDS)
     ] + [
+        O('C08.large_study', 'harness.c08_deploy', 'client_call_large', 200, 600,
+          'the same agreement for a study whose proto is large (400 parameters, 20 kB of metadata): suggest / trials / '
+          'optimal_trials / set_state / delete on an active, aborted or completed study', '5 call kinds x 3 study states x 2 '
+          'datastores', no_validate=True),
         O('C08.custom_policy', 'harness.c08_deploy', 'custom_policy', 120, 300,
           'a configured (non-default) policy factory is honoured by all three deployments; a policy that raises (ValueError, '
           'ZeroDivisionError, custom Exception) is reported as the documented RuntimeError in all three and leaves no '
-          'unfinished operation', '4 fault kinds x count 1..2 x 3 pre-states', no_validate=True),
+          'unfinished operation', '6 fault kinds (4 in policy.suggest, 2 in the policy factory) x count 1..2 x 3 pre-states', no_validate=True),
         O('C08.endpoint_switch', 'harness.c08_deploy', 'endpoint_switch', 90, 300,
           'a client process that switches environment_variables.server_endpoint talks to the newly selected deployment '
           '(no cached service): a study created on the first is not found on the second', 'all ordered pairs of the 3 '
